@@ -88,6 +88,8 @@ def cases(rng, tier, X):
             # the same kind of traffic with every kind of platform fault injected at random points
             out.append(('uf%d' % k, F.with_faults(rng, F.universal(rng), getter_mask=0x1ff, mtu0=True)))
     out += F.small_scope(2 if tier == 'quick' else 3)
+    # one kind of event repeated hundreds / thousands of times (counters wrapping, thresholds, budgets), then ordinary traffic
+    out += F.soak_cases(rng, tier)
     # every length 0..60 and around the MTU of one frame per opcode (thorough: all lengths)
     mtu = 576
     for op in range(13):
